@@ -417,6 +417,7 @@ def cond_expr(env, depth=2):
                          st.one_of(vec_leaf(env), st.integers(0, (1 << env.W) - 1).map(lambda v: ["const", v]))).map(list)
         opts += [cmp_, cmp_]
     leaf = st.one_of(opts)
+    leaf = st.one_of(leaf, leaf, leaf, leaf.map(lambda c: ["tobool", c]))  # explicit truth value: bool(x)
     if depth <= 0:
         return leaf
     sub = cond_expr(env, depth - 1)
